@@ -12,6 +12,7 @@ from typing import Any
 from asphalt.core import CLIApplicationComponent, Component
 
 CURRENT: Any = None  # the harness of the run in progress
+_UNSET: Any = object()
 NSLOTS = 48
 
 
@@ -20,6 +21,12 @@ def _make(i: int, has_prepare: bool, has_start: bool) -> type:
 
     def __init__(self: Any, **kwargs: Any) -> None:
         CURRENT.on_init(self, kwargs)
+
+    if i % 6 == 2:
+        # these slots have a closed set of options (a..d), like most real components: an
+        # unknown option makes the constructor *call* fail with a TypeError
+        def __init__(self: Any, *, a: Any = _UNSET, b: Any = _UNSET, c: Any = _UNSET, d: Any = _UNSET) -> None:  # type: ignore[misc]  # noqa: F811
+            CURRENT.on_init(self, {k: v for k, v in (("a", a), ("b", b), ("c", c), ("d", d)) if v is not _UNSET})
 
     ns: dict[str, Any] = {"__init__": __init__, "__module__": __name__, "__qualname__": name}
     if has_prepare:
